@@ -32,6 +32,10 @@ Theorem C08_serial_bounded : forall p script r,
 Proof. exact serial_run_spec. Qed.
 Print Assumptions C08_serial_bounded.
 
+Theorem C08_serial_never_out_of_fuel : forall p script, serial_run p script <> TOutOfFuel.
+Proof. exact serial_run_never_out_of_fuel. Qed.
+Print Assumptions C08_serial_never_out_of_fuel.
+
 (** external cancellation at ANY instant c: the receiver leaves within one poll interval ... *)
 Theorem C08_parallel_cancel_prompt : forall p script c r,
   0 <= c -> parallel_run_cancelled p script c = TDone r ->
